@@ -375,13 +375,13 @@ def r03e(R):
     for n in cfg.nodes:
         if n.kind == 'stmt' and isinstance(n.ast, ast.Assign) \
                 and isinstance(n.ast.targets[0], ast.Subscript):
-            stores[norm(n.ast.targets[0].value).replace('self._top.', '')] = n
+            stores[norm(n.ast.targets[0].value).split('.')[-1]] = n   # whatever names the top frame
 
     def facts(store):
         """membership facts that hold whenever `store` executes"""
         out = set()
         for t in tests:
-            name = norm(t.ast.comparators[0]).replace('self._top.', '')
+            name = norm(t.ast.comparators[0]).split('.')[-1]
             member = isinstance(t.ast.ops[0], ast.In)     # label of 'is in'
             if store.id not in reachable_without_edges(cfg, cfg.entry, {(t.id, member)}):
                 out.add((name, True))
